@@ -11,6 +11,7 @@ Record repobs := mkrepobs {
 
 Record obs := mkobs {
   o_res : res;
+  o_res1 : option res;                 (* result of the first request of a concurrent pair *)
   o_replicas : list (addr * mode);
   o_ro : bool; o_rwc : nat;
   o_checkpoint : option nat;
@@ -40,16 +41,33 @@ Definition res_class (r : res) : res := match r with RRefused => RErr | x => x e
 Definition observe_rep (f : frep) : repobs :=
   mkrepobs (f_open f) (f_mode f) (f_chain f) (f_rev f) (f_cp f) (f_applied f) (f_size f).
 
+(** a request in flight (held inside the replicas or inside a replica's HTTP answer) and a second request
+    issued meanwhile: the controller lock serialises them in this order *)
+Inductive xevent := One (e : event) | Two (e1 e2 : event).
+
+Definition xstep (s : cst) (x : xevent) : cst * res * eff * option res :=
+  match x with
+  | One e => let '(s1, r, ef) := step s e in (s1, r, ef, None)
+  | Two a b =>
+      let '(s1, r1, f1) := step s a in
+      let '(s2, r2, f2) := step s1 b in
+      (s2, r2, mkeff (e_signals f1 ++ e_signals f2) (e_served f2), Some (res_class r1))
+  end.
+
 Definition observe (n : nat) (s : cst) (r : res) (e : eff) : obs :=
-  mkobs (res_class r) (replicas s) (ro s) (rwc s) (checkpoint s) (maxrev s) (signalled s)
+  mkobs (res_class r) None (replicas s) (ro s) (rwc s) (checkpoint s) (maxrev s) (signalled s)
         (sort (map fst (registered s))) (csize s) (fe_up s)
         (map (fun a => observe_rep (wget (w s) a)) (seq 0 n))
         (sort2 (e_signals e)) (e_served e).
 
-Fixpoint trace (n : nat) (s : cst) (es : list event) : list obs :=
+Definition with_res1 (o : obs) (r1 : option res) : obs :=
+  mkobs (o_res o) r1 (o_replicas o) (o_ro o) (o_rwc o) (o_checkpoint o) (o_maxrev o) (o_signalled o)
+        (o_registered o) (o_size o) (o_feup o) (o_reps o) (o_signals o) (o_served o).
+
+Fixpoint trace (n : nat) (s : cst) (es : list xevent) : list obs :=
   match es with
   | [] => []
-  | e :: t => let '(s1, r, ef) := step s e in observe n s1 r ef :: trace n s1 t
+  | e :: t => let '(s1, r, ef, r1) := xstep s e in with_res1 (observe n s1 r ef) r1 :: trace n s1 t
   end.
 
 (** ** equality with field codes *)
@@ -94,9 +112,13 @@ Fixpoint reps_diff (i : nat) (cpks : list bool) (a b : list repobs) : nat :=
   end.
 
 (** 1 result 2 replica list 3 read-only 4 rw count 5 checkpoint 6 leader 7 signalled 8 registered
-    9 size 10 frontend 11 signals 12 served 1xy replica x field y *)
+    9 size 10 frontend 11 signals 12 served 13 result of the first request of a pair 1xy replica x field y *)
+Definition ores_eqb (a b : option res) : bool :=
+  match a, b with None, None => true | Some x, Some y => res_eqb x y | _, _ => false end.
+
 Definition obs_diff (cpks : list bool) (a b : obs) : nat :=
   if negb (res_eqb (o_res a) (o_res b)) then 1
+  else if negb (ores_eqb (o_res1 a) (o_res1 b)) then 13
   else if negb (lrep_eqb (o_replicas a) (o_replicas b)) then 2
   else if negb (Bool.eqb (o_ro a) (o_ro b)) then 3
   else if negb (Nat.eqb (o_rwc a) (o_rwc b)) then 4
@@ -110,17 +132,17 @@ Definition obs_diff (cpks : list bool) (a b : obs) : nat :=
   else if negb (onat_eqb (o_served a) (o_served b)) then 12
   else reps_diff 0 cpks (o_reps a) (o_reps b).
 
-Fixpoint first_diff (n : nat) (i : nat) (s : cst) (es : list event) (os : list obs) : option (nat * nat) :=
+Fixpoint first_diff (n : nat) (i : nat) (s : cst) (es : list xevent) (os : list obs) : option (nat * nat) :=
   match es, os with
   | [], [] => None
   | e :: t, o :: os' =>
-      let '(s1, r, ef) := step s e in
+      let '(s1, r, ef, r1) := xstep s e in
       let cpks := map (fun a => f_cpk (wget (w s1) a)) (seq 0 n) in
-      match obs_diff cpks (observe n s1 r ef) o with
+      match obs_diff cpks (with_res1 (observe n s1 r ef) r1) o with
       | O => first_diff n (S i) s1 t os'
       | d => Some (i, d)
       end
   | _, _ => Some (i, 98%nat)
   end.
 
-Record case := mkcase { c_rf : nat; c_n : nat; c_world : world; c_events : list event; c_obs : list obs }.
+Record case := mkcase { c_rf : nat; c_n : nat; c_world : world; c_events : list xevent; c_obs : list obs }.
